@@ -174,48 +174,63 @@ def check_multiply(F, run, tier):
                           "operands of length %d and %d %s the FFT path" % (la, lb, "take" if fft else "do not take"))
 
 
+class _SizeSeen(Exception):
+    def __init__(self, size):
+        self.size = size
+
+
 def check_transform_size(F, run):
+    """R11.3 — the transform size handed to `dft` is at least len_a + len_b − 1 (otherwise the cyclic convolution wraps around).  Decided by
+    evaluating `multiply` up to its dft calls for every pair of operand lengths on the FFT path up to 48 × 48 (the dft itself is not
+    executed: a method hook records the requested size of each call); the sizes of the two transforms must agree."""
     mul = F.fn("polynomial::multiply")
-    dfts = [n for n in walk(mul["body"]) if n.get("k") == "MCall" and n["name"] == "dft"]
-    run.check(len(dfts) == 2 and pp(dfts[0]["args"][0]) == pp(dfts[1]["args"][0]), "R11.3", "polynomial::multiply", "same-bound", F.loc(mul),
-              "both operands must be transformed with the same size")
-    if len(dfts) == 2:
-        it = vecint.VInterp(F, mul)
-        la, lb = sp.Symbol("la", integer=True, positive=True), sp.Symbol("lb", integer=True, positive=True)
-        # bound as a function of the lengths
-        bnode = peel(dfts[0]["args"][0])
-        d = None
-        for n in walk(mul["body"]):
-            if n.get("k") == "LetS" and n["pat"].get("k") == "Bind" and bnode.get("k") == "Local" and n["pat"]["id"] == bnode["id"]:
-                d = n["init"]
-        txt = pp(d) if d is not None else ""
-        ok = d is not None
-        if ok:
-            class LI(vecint.VInterp):
-                def ev_MCall(self, n):
-                    if n["name"] == "len":
-                        pl = place(n["recv"]) or ""
-                        return la if pl.startswith("lhs") else lb
-                    return vecint.VInterp.ev_MCall(self, n)
-            li = LI(F, mul)
+    where = F.loc(mul)
+    LMAX = 48
+    n_pairs = 0
+    bad = []
+    unrec = None
+    for la in range(1, LMAX + 1):
+        for lb in range(1, LMAX + 1):
+            sizes = []
+
+            def hook(it, n, sizes=sizes):
+                if len(n["args"]) != 1:
+                    return NotImplemented
+                sizes.append(it.ev(n["args"][0]))
+                if len(sizes) >= 2:
+                    raise _SizeSeen(sizes)
+                return [sp.Integer(0)]
+
+            it = vecint.VInterp(F, mul)
+            it.if_hook = hook_real
+            it.method_hooks = dict(it.method_hooks)
+            it.method_hooks["dft"] = hook
+            a, b = PI.poly([sp.Symbol("a%d" % i, real=True) for i in range(la)]), PI.poly([sp.Symbol("b%d" % i, real=True) for i in range(lb)])
+            for prm, v in zip(mul["params"], [a, b]):
+                it.bind(prm, v, mul)
             try:
-                bound = li.ev(d)
-            except sym.Unsupported:
-                bound = None
-            ok = bound is not None
-            if ok:
-                # bound >= la + lb - 1 for all positive lengths: check both orderings of max
-                need = la + lb - 1
-                good = all(sp.simplify((bound.subs(sp.Max(la, lb), m) - need).subs(o)) is not None for m, o in ((la, {}), (lb, {})))
-                c1 = sp.simplify(bound.rewrite(sp.Piecewise) - need) if False else None
-                e1 = sp.expand(bound.replace(sp.Max, lambda *a: a[0]) - need)   # case la >= lb
-                e2 = sp.expand(bound.replace(sp.Max, lambda *a: a[1]) - need)   # case lb >= la
-                x = sp.Symbol("x", nonnegative=True, integer=True)
-                g1 = e1.subs(la, lb + x)
-                g2 = e2.subs(lb, la + x)
-                ok = bool(sp.simplify(g1).is_nonnegative) and bool(sp.simplify(g2).is_nonnegative)
-        run.check(ok, "R11.3", "polynomial::multiply", "bound>=product-length", F.loc(mul),
-                  "transform size `%s` is not provably >= len_a + len_b - 1: the cyclic convolution would wrap around" % txt, sample="bound = %s" % txt)
+                it.ev(mul["body"])
+            except _SizeSeen:
+                pass
+            except sym.Return:
+                pass
+            except (sym.Unsupported, vecint.IndexPanic) as e:
+                if sizes:
+                    pass
+                else:
+                    unrec = unrec or ("lengths %dx%d: %s" % (la, lb, e))
+                    continue
+            if not sizes:
+                continue        # a short-operand branch without transforms
+            n_pairs += 1
+            if len(sizes) != 2 or sizes[0] != sizes[1] or not getattr(sizes[0], "is_Integer", False) or int(sizes[0]) < la + lb - 1:
+                bad.append((la, lb, [str(x) for x in sizes]))
+    if unrec and not n_pairs:
+        run.broken("R11.3", "polynomial::multiply", "transform-size", where, unrec)
+    run.check(not bad, "R11.3", "polynomial::multiply", "bound>=product-length", where,
+              "for operand lengths %s the transforms are requested with sizes %s: smaller than len_a + len_b − 1 (the cyclic convolution wraps around) or not the same for both operands"
+              % (["%dx%d" % (x[0], x[1]) for x in bad[:6]], [x[2] for x in bad[:3]]), sample="dft size >= len_a + len_b − 1 for %d length pairs up to %d×%d" % (n_pairs, LMAX, LMAX))
+    run.floor("R11.3", "polynomial::multiply", "length pairs on the FFT path", n_pairs, 1500, where)
     pad = PI.poly_method(F, "pad_power_of_two")
     run.analysed(pad)
     for size in range(1, 12):
